@@ -54,7 +54,7 @@ theorem brRun_bits [Mul P] (B : Backend Q P) :
           rfl
 
 /-- writing leaves every other bit alone and sets the addressed one (`0 ≤ s < length`) -/
-theorem writeBit_get (l : List Int) (s : Nat) (i : Int) (j : Nat) (hs : s < l.length) :
+theorem writeBit_set (l : List Int) (s : Nat) (i : Int) (hs : s < l.length) :
     writeBit (some l) (some (s : Int)) i = some (l.set s i) := by
   unfold writeBit QipVerif.Heap.pySet QipVerif.Heap.pyIdx
   simp [hs]
